@@ -141,6 +141,7 @@ def run(ctx, res):
     # CLI: luafmt and luafmt --overwrite
     from pico8 import tool
     from pico8.game import file as gfile
+    cli_unparseable(ctx, res)
     for i in range(ctx.budget(5, 50)):
         src = gen_lua.gen_program(rng)[0]
         w = rng.randrange(0, 9)
@@ -174,6 +175,43 @@ def run(ctx, res):
             if got is None or got.rstrip(b'\n') != want.rstrip(b'\n'):
                 res.fail('C09:cli:' + hx(src)[:60], 'p8tool %s did not write the formatter\'s output (wiring: indentwidth/overwrite)' % what,
                          {'source': hx(src), 'indentwidth': w})
+
+
+def cli_unparseable(ctx, res):
+    """`p8tool luafmt` on carts whose code the parser cannot finish: the command must fail and must not write a shortened program."""
+    from pico8 import tool
+    from pico8.game import file as gfile
+    for i, code in enumerate((b'x=1\na=b=c\ny=2\n', b'x=1\ny = 2 3\nz=4\n', b'f()\n?x,y z\nw=1\n', b'a=1\nb |= 1\nc=3\n')):
+        for overwrite in (False, True):
+            cart = os.path.join(ctx.tmp, 'unp%d_%d.p8' % (i, overwrite))
+            g = U.make_game(code=b'x=1\n', version=8)
+            gfile.to_file(g, cart)
+            data = open(cart, 'rb').read().replace(b'x=1\n', code)
+            open(cart, 'wb').write(data)
+            outp = cart if overwrite else cart[:-3] + '_fmt.p8'
+            with U.quiet(), contextlib.redirect_stdout(io.StringIO()), contextlib.redirect_stderr(io.StringIO()):
+                try:
+                    rc = tool.main(['-q', 'luafmt'] + (['--overwrite'] if overwrite else []) + [cart])
+                except BaseException as e:
+                    rc = 'raised ' + type(e).__name__
+            res.evaluations += 1
+            res.count('cli-unparseable')
+            key = 'C09:cli-unparseable:%d:%s' % (i, overwrite)
+            inp = {'code': hx(code), 'overwrite': overwrite}
+            try:
+                lua_mod = __import__('pico8.lua.lua', fromlist=['x'])
+                l = lua_mod.Lua.from_lines([code], version=8)
+                b''.join(l.to_lines(writer_cls=lua_mod.LuaFormatterWriter, writer_args={'indentwidth': 2}))
+                continue        # the library formatter accepts this code: not a case
+            except Exception:
+                pass
+            written = open(outp, 'rb').read() if os.path.exists(outp) else None
+            if rc == 0:
+                res.fail(key, 'p8tool luafmt returned success on code it could not parse to its end', inp)
+            elif overwrite and written != data:
+                res.fail(key, 'p8tool luafmt --overwrite failed (%s) but changed its input cart' % rc, inp)
+            elif not overwrite and written is not None:
+                res.fail(key, 'p8tool luafmt failed (%s) but wrote %s (a shortened program?)' % (rc, os.path.basename(outp)), inp)
 
 
 _spec_cache = {}
